@@ -112,6 +112,7 @@ impl<'a> Lexer<'a> {
                         Some(_) => {
                             self.txt.next();
                         } // advance the token by default and maintain state
+                        None if is_list => return Err(LexerError::UnclosedList),
                         None => {
                             self.state = State::EOF;
                         }
@@ -236,6 +237,7 @@ impl<'a> Lexer<'a> {
                             Self::push_to_str(&mut char_data, ch)?;
                         }
                         Some(ch) => return Err(LexerError::UnrecognizedChar(ch)),
+                        None if is_list => return Err(LexerError::UnclosedList),
                         None => {
                             self.state = State::EOF;
                             return char_data
